@@ -43,63 +43,63 @@ def edge_reachable_without(f, ep, blocked):
     return ep.term in reach and ep.term.id not in b
 
 
-def rule1_once(ctx, v):
-    ctx.doc('C13.1', 'join / tryjoin / detach: every success path passes the record release exactly once; the busy path of '
+def rule1_once(ctx, v, rule='C13.1'):
+    ctx.doc(rule, 'join / tryjoin / detach: every success path passes the record release exactly once; the busy path of '
             'tryjoin passes none and returns unlocked; detach of an unfinished thread releases nothing')
     for name in ('myth_join_body', 'myth_tryjoin_body'):
         f = ctx.need_fn(v, name)
         frees = call_sites(f, DESC_FREE)
-        ctx.ob('C13.1', name + ': has release', bool(frees), 'the function recycles the record', loc=f.loc)
+        ctx.ob(rule, name + ': has release', bool(frees), 'the function recycles the record', loc=f.loc)
         again = [(a, b) for a in frees for b in frees if b in f.reachable_from(a)]
-        ctx.ob('C13.1', name + ': at most one release per call', not again,
+        ctx.ob(rule, name + ': at most one release per call', not again,
                'no release is reachable from a release (no double free of the record)', loc=(again[0][1].loc if again else f.loc))
         from .c02 import env_origin_ok
         thp = f.param_named('th') or 'a0'
         for fr in frees:
             ok_env, why = env_origin_ok(f, fr.args[0])
-            ctx.ob('C13.1', name + ': record released to the executing worker\'s free list', ok_env and same_value(f, fr.args[1], thp),
+            ctx.ob(rule, name + ': record released to the executing worker\'s free list', ok_env and same_value(f, fr.args[1], thp),
                    'free_myth_thread_struct_desc(env, th) with env the current worker (the free lists are unsynchronised and per worker) and '
                    'th the thread being reaped', loc=fr.loc, detail=why)
         la = LockAnalysis(f)
         for val, anchor in ret_cases(f):
             c = const_int(val)
             if c == 0:
-                once_on_success(ctx, f, 'C13.1', name, frees, anchor)
+                once_on_success(ctx, f, rule, name, frees, anchor)
             elif c == EBUSY and name == 'myth_tryjoin_body':
                 tgt = anchor.term if hasattr(anchor, 'term') else anchor
                 bad = [fr for fr in frees if tgt in f.reachable_from(fr)]
-                ctx.ob('C13.1', name + ': busy path releases nothing', not bad,
+                ctx.ob(rule, name + ': busy path releases nothing', not bad,
                        'EBUSY is returned without touching the record\'s ownership', loc=anchor.loc)
-                ctx.ob('C13.1', name + ': busy path unlocked', not la.held_may(tgt), 'no lock is held when EBUSY is returned',
+                ctx.ob(rule, name + ': busy path unlocked', not la.held_may(tgt), 'no lock is held when EBUSY is returned',
                        loc=anchor.loc)
                 fin = [(l, ic) for l in f.loads_of(TH + 'status') for ic in f.users(l.id)
                        if ic.op == 'icmp' and ic.pred in ('sge', 'uge', 'sgt', 'ugt')]
                 ok = any(f.on_edge(ic.id, False, anchor) for l, ic in fin)
-                ctx.ob('C13.1', name + ': busy exactly when not finished', ok,
+                ctx.ob(rule, name + ': busy exactly when not finished', ok,
                        'EBUSY is returned only on the not-finished edge of the status test', loc=anchor.loc)
             else:
-                ctx.ob('C13.1', name + ': return codes', False, 'unexpected return value %s' % describe(f, val), loc=anchor.loc)
+                ctx.ob(rule, name + ': return codes', False, 'unexpected return value %s' % describe(f, val), loc=anchor.loc)
         if name == 'myth_tryjoin_body':
             fin = [(l, ic) for l in f.loads_of(TH + 'status') for ic in f.users(l.id)
                    if ic.op == 'icmp' and ic.pred in ('sge', 'uge', 'sgt', 'ugt')]
             for fr in frees:
-                ctx.ob('C13.1', name + ': release only if finished', any(f.on_edge(ic.id, True, fr) for l, ic in fin),
+                ctx.ob(rule, name + ': release only if finished', any(f.on_edge(ic.id, True, fr) for l, ic in fin),
                        'the record is released only on the finished edge', loc=fr.loc)
     d = ctx.need_fn(v, 'myth_detach_body')
     frees = call_sites(d, DESC_FREE)
     again = [(a, b) for a in frees for b in frees if b in d.reachable_from(a)]
-    ctx.ob('C13.1', 'myth_detach_body: at most one release per call', not again, 'no release reachable from a release',
+    ctx.ob(rule, 'myth_detach_body: at most one release per call', not again, 'no release reachable from a release',
            loc=(again[0][1].loc if again else d.loc))
     sts = d.stores_to(TH + 'detached')
     for s in sts:
         bad = [fr for fr in frees if fr in d.reachable_from(s) or s in d.reachable_from(fr)]
-        ctx.ob('C13.1', 'myth_detach_body: unfinished thread is only flagged', not bad,
+        ctx.ob(rule, 'myth_detach_body: unfinished thread is only flagged', not bad,
                'on the path that sets detached the record is not released by the detacher (the finisher will)', loc=s.loc)
     for r in d.exits():
         reach = d.reachable_from(d.entry_inst(), blocked=frees + sts, include_start=True)
-        ctx.ob('C13.1', 'myth_detach_body: every path reaps or flags', r not in reach,
+        ctx.ob(rule, 'myth_detach_body: every path reaps or flags', r not in reach,
                'detach either releases a finished record or marks the thread detached; it never does neither', loc=r.loc)
-    ctx.floor('C13.1', 12)
+    ctx.floor(rule, 12)
 
 
 def rule2_detachstate(ctx, fl):
@@ -254,6 +254,12 @@ def rule4_timed(ctx, v):
             ctx.ob('C13.4', 'timedjoin: gives up only past the deadline', ok,
                    'the timeout code is returned only on the true edge of now > abstime', loc=anchor.loc)
             ctx.ob('C13.4', 'timedjoin: timeout code', c == EBUSY, 'the give-up code is EBUSY', loc=anchor.loc)
+            for t in trys:
+                tests = [br for ic in f.users(t.id) if ic.op == 'icmp' for cond, pol in lib.cond_chain(f, ic.id)
+                         for br, _t, _f in f.cond_edges(cond)]
+                ctx.ob('C13.4', 'timedjoin: no give-up after an unexamined try', not lib.reaches_point(f, t, anchor, blocked=tests),
+                       'a try that may have reaped the thread (result copied, record recycled) is examined before "busy" can be '
+                       'reported; otherwise the caller joins again and the record is released a second time', loc=t.loc)
     for g in gts:
         ok = same_value(f, g.args[1], 'a2') and clk and f.sources(g.args[0]) == f.sources(clk[0].args[0]) and \
             f.dominates_f(clk[0], g) and not [t for t in trys if t in f.reachable_from(clk[0], blocked=[g]) and False]
@@ -265,7 +271,7 @@ def rule4_timed(ctx, v):
     ys = call_sites(f, 'myth_yield_ex_body')
     ctx.ob('C13.4', 'timedjoin: yields between tries', len(ys) >= 1 and all(f.in_loop(y) for y in ys),
            'the waiting loop yields the worker', loc=f.loc)
-    ctx.floor('C13.4', 7)
+    ctx.floor('C13.4', 9)
 
 
 def rule5_finisher(ctx, fl):
@@ -297,6 +303,8 @@ def rule5_finisher(ctx, fl):
 def run(ctx):
     for fl in flavours(ctx):
         ctx.unit = fl
+        ctx.doc('C13.6', 'native API forwarding: each public entry point of this property reaches the implementation of the same name with its parameters in order and returns its result (sibling slips such as trylock -> lock, signal -> broadcast, swapped arguments)')
+        lib.native_forwarding(ctx, 'C13.6', fl, lambda n: n in ('myth_join', 'myth_tryjoin', 'myth_timedjoin', 'myth_detach', 'myth_thread_attr_setdetachstate', 'myth_thread_attr_getdetachstate'), floor=8)
         stops = ('myth_queue_push', 'myth_queue_pop', DESC_FREE, 'myth_get_current_env_noinline', 'myth_tryjoin_body',
                  'myth_timespec_gt', 'hr_gettime', 'myth_yield_ex_body') + lib.SPIN_STOPS
         v = ctx.view(NATIVE, roots=['myth_join_body', 'myth_tryjoin_body', 'myth_detach_body', 'myth_timedjoin_body'],
@@ -311,6 +319,11 @@ def run(ctx):
 SCHED = 'src/myth_sched_func.h'
 WRAP = 'src/myth_wrap_pthread.c'
 MUTANTS = [
+    {'name': 'native myth_tryjoin forwards to the blocking join', 'expect': 'C13.6',
+     'edits': [('src/myth_if_native.c', "  return myth_tryjoin_body(th, result);", "  return myth_join_body(th, result);")]},
+    {'name': 'timedjoin tests the deadline after a try it has not examined (seed3 C01/m2)', 'expect': 'C13.4',
+     'edits': [(SCHED, "      int err = hr_gettime(tp);\n      assert(err == 0);\n      if (myth_timespec_gt(tp, abstime)) return EBUSY;\n      if (myth_tryjoin_body(th, result) == 0) {",
+                "      int r_ = myth_tryjoin_body(th, result);\n      int err = hr_gettime(tp);\n      assert(err == 0);\n      if (myth_timespec_gt(tp, abstime)) return EBUSY;\n      if (r_ == 0) {")]},
     {'name': 'stack release skips every thread that has a stack (sweep M0168)', 'expect': 'C13.3',
      'edits': [(SCHED, "  if (th->stack) {\n    //Add to a freelist", "  if (!th->stack) {\n    //Add to a freelist")]},
     {'name': 'tryjoin releases the record to an unset env (sweep M0603)', 'expect': 'C13.1',
